@@ -20,7 +20,7 @@ from .ops import *
 from . import ops
 from .sources import SOURCES
 from .chars import VChars, to_vstr, chars_eq, as_chars
-from .segs import VSegs, to_vbytes, segs_of, segs_eq, from_segs, total_len
+from .segs import VSegs, to_vbytes, segs_of, segs_eq, from_segs, total_len, resolve_lens
 
 sys.setrecursionlimit(20000)
 
@@ -1767,7 +1767,7 @@ class Interp:
             return
         if (isinstance(a, VSegs) or isinstance(b, VSegs)) or \
                 (isinstance(op, ast.Add) and isinstance(a, VBytes) and isinstance(b, VBytes) and not (a.concrete and b.concrete)):
-            sa, sb = segs_of(a), segs_of(b)
+            sa, sb = resolve_lens(st, segs_of(a)), resolve_lens(st, segs_of(b))
             if isinstance(op, ast.Add) and sa is not None and sb is not None:
                 yield st, from_segs(sa + sb)
                 return
